@@ -360,6 +360,13 @@ def seek_landing(F, R):
         R.check(not moved and len(sk) == 1 and 'start_position' in sk[0] and 'ransport' not in sk[0], 'B.C18.seek', 'new:start-untouched',
                 'DecodeScheduler::new moves the new transport\'s position (%s) / seeks the decoder to %s: the first frame played is not the one at the requested start position'
                 % (moved, [x[:80] for x in sk]), detail={'seek': [x[:100] for x in sk]}, where=nb.file)
+        # the transport is told the length the scheduler itself plays to (the slice's length when there is a slice): an
+        # open-ended loop region is resolved against it, as the static sound resolves its own against the sliced length
+        tl = [_d2(nb, t['args'][4], depth=8, at=bb) for bb, t in nb.calls() if (callee_path(t) or '') == 'sound::transport::Transport::new' and len(t['args']) > 4]
+        fl = [_d2(nb, s2['rv']['ops'][s2['rv']['fields'].index('num_frames')], depth=8, at=bb) for bb, _, s2 in nb.stmts()
+              if s2['k'] == 'assign' and s2['rv']['k'] == 'agg' and 'num_frames' in (s2['rv'].get('fields') or []) and 'DecodeScheduler' in (s2['rv'].get('adt') or '')]
+        R.check(len(tl) == 1 and len(fl) == 1 and tl[0] == fl[0], 'B.C18.seek', 'new:same-length', 'the transport of a new streaming sound is told the length %s, the scheduler plays to %s'
+                % ([x[:60] for x in tl], [x[:60] for x in fl]), detail={'length': (tl or ['?'])[0][:80]}, where=nb.file)
         R.check(okn, 'B.C18.seek', 'new:transport-start', 'a new streaming sound\'s transport starts at %s, not at the requested start position'
                 % [d[:100] for _, d in tn], detail={'start': tn[0][1][:120] if tn else None}, where=nb.file)
     # a relative seek is relative to what is being HEARD: the decoder thread's own transport runs up to a ring buffer ahead
